@@ -61,3 +61,5 @@ M("c05-setter-keeps-old-timer", "C05", A, "CancelScope.deadline@setter",
 M("c05-F11-revert-transfer-across-tasks", "C05", A, "CancelScope.__exit__",
   "                    if self._parent_scope._host_task is self._host_task:\n                        self._parent_scope._pending_uncancellations += (\n                            self._pending_uncancellations\n                        )\n",
   "                    self._parent_scope._pending_uncancellations += (\n                        self._pending_uncancellations\n                    )\n", ["R05-b"])
+
+M("c05-classifier-walks-any-exception", "C05", A, "is_anyio_cancellation", "        if isinstance(exc.__context__, CancelledError):\n            exc = exc.__context__\n            continue", "        if exc.__context__ is not None:\n            exc = exc.__context__\n            continue", ["R05-e"])
